@@ -429,6 +429,7 @@ struct Collect {
     casts: Vec<(usize, usize, usize, String)>, // expr start, expr end, whole end, type text
     blocks_open: Vec<usize>,
     enum_loops: Vec<EnumLoop>,
+    compound: Vec<(usize, usize, usize, usize, usize, String)>,
     rename_from: String,
     rename_hits: Vec<(usize, usize, bool)>, // start, end, is_shorthand_field
 }
@@ -570,6 +571,20 @@ impl<'ast> Visit<'ast> for Collect {
         syn::visit::visit_expr_closure(self, c);
     }
     fn visit_expr_binary(&mut self, e: &'ast syn::ExprBinary) {
+        let comp = match &e.op {
+            syn::BinOp::AddAssign(_) => Some("::core::ops::Add::add"),
+            syn::BinOp::SubAssign(_) => Some("::core::ops::Sub::sub"),
+            syn::BinOp::MulAssign(_) => Some("::core::ops::Mul::mul"),
+            syn::BinOp::DivAssign(_) => Some("::core::ops::Div::div"),
+            syn::BinOp::RemAssign(_) => Some("::core::ops::Rem::rem"),
+            _ => None,
+        };
+        if let Some(p) = comp {
+            let (ls, le) = br(e.left.span());
+            let (os, oe) = br(e.op.span());
+            let (_, re) = br(e.right.span());
+            self.compound.push((ls, le, os, oe, re, p.to_string()));
+        }
         if let Some(p) = binop_path(&e.op) {
             let (ls, _) = br(e.left.span());
             let (os, oe) = br(e.op.span());
@@ -924,10 +939,27 @@ fn finish(
             cx.ins(*re, ")", false);
             cx.count("R1(binary operator -> UFCS)");
         }
+        for (ls, le, os, oe, re, path) in &col.compound {
+            // `l op= r`  ->  `l = Op::op(l, r)`   (R1 for compound assignment)
+            let ltxt = src[*ls..*le].to_string();
+            cx.rep(*os, *oe, &format!("= {}({},", path, ltxt));
+            cx.ins(*re, ")", false);
+            cx.count("R1(compound assignment `l op= r` -> `l = Op::op(l, r)`)");
+        }
         for (os, oe, ee, path) in &col.unops {
             cx.rep(*os, *oe, &format!("{}(", path));
             cx.ins(*ee, ")", false);
             cx.count("R1(unary neg -> UFCS)");
+        }
+    }
+    if !ufcs && req["compound"].as_bool().unwrap_or(false) {
+        for (ls, le, os, oe, re, path) in &col.compound {
+            // `l op= r`  ->  `l = l op (r)`
+            let ltxt = src[*ls..*le].to_string();
+            let op = match path.rsplit("::").next().unwrap_or("") { "add" => "+", "sub" => "-", "mul" => "*", "div" => "/", _ => "%" };
+            cx.rep(*os, *oe, &format!("= {} {} (", ltxt, op));
+            cx.ins(*re, ")", false);
+            cx.count("R1(compound assignment `l op= r` -> `l = l op (r)`)");
         }
     }
     // float literals
